@@ -71,6 +71,31 @@ CHECKS = {
         text="Statistics are recounted from result['code'] (lines, bytes with two-byte line ends, distinct allocated registers) for generated programs including libraries whose state lives only in module-level registers.",
         design_ref="6.C17", note="Bounded; the proof of the statistics block is listed in DESIGN as planned.",
         technique="bounded native contract check (stand-in)"),
+    "C10": dict(
+        category="proof",
+        text="Compiler.compile is proved, by exception-flow VCs over its real source, to let no Exception escape and to return a result (pipeline calls modelled as opaque operations that may raise anything); compile_code as a whole is checked on a corpus of arbitrary texts for verdict shape, error positions, time and leftover helper processes (bounded part, not counted as proved).",
+        design_ref="6.C10", note="Assumptions listed in evidence (CompilerError.node invariant, SyntaxError attributes, BaseException outside the model, pass loop unrolled for two symbolic passes). The pre-try directive scanner and eval_constexpr are covered by the bounded corpus only.",
+        technique=TECH + "; bounded corpus for the parts outside reach"),
+    "C11": dict(
+        category="other",
+        text="Mechanical scans of the package AST (every write to module-level state, the constexpr memo key, the output-mode reset, every iteration over a set) must be classified in the sidecar with a lemma; request histories in one process are compared with fresh-process results under several hash seeds, options and sources are deep-snapshotted.",
+        design_ref="6.C11", note="A deductive frame proof of compile_code is out of reach (ownership over astroid objects); scans over-approximate by name.",
+        technique="contract-style frame obligations decided by syntactic scan + bounded native history check (stand-in)"),
+    "C12": dict(
+        category="exploration",
+        text="The literal emitted for a @constexpr call is compared with calling the same function text directly in-process (HASH = signed CRC-32) over bodies x call texts x positions; the memo-key scan obligation is shared with C11.",
+        design_ref="6.C12", note="Evaluation is delegated to a CPython child process: no deductive form; bounded only.",
+        technique="bounded native contract check (stand-in) + syntactic scan obligation"),
+    "C14": dict(
+        category="proof",
+        text="mod_daemon.process_input is proved over its real source (try/except/except/finally with returns inside try, request content modelled as arbitrary values whose every operation may raise): no exception escapes and exactly one reply line reaches the saved stdout per non-empty request; stdout-discipline scans; the real daemon process is run on request histories (bounded, not counted as proved).",
+        design_ref="6.C14", note="Assumed: compile_code returns a JSON-serialisable dict or raises (C10), json/base64/print contracts listed in evidence. main()'s loop is covered by the bounded process runs.",
+        technique=TECH + "; bounded runs of the real process"),
+    "C15": dict(
+        category="proof",
+        text="The body of the directive loop (one tag) is proved equal to the property's normalisation for every tag string and every caller vector, including the frame (other options untouched); line filtering / splitting / last-one-wins and equality with the API call are bounded stand-ins with options observed by rebinding compiler.Compiler.",
+        design_ref="6.C15", note="str.strip / str.replace are uninterpreted functions shared by code and specification.",
+        technique=TECH + "; bounded native check for the parts outside reach"),
 }
 NA = {}
 
